@@ -22,10 +22,15 @@ CLASS_SPECS = {'CIMInstanceName': {'host': Opt(Str), 'namespace': Opt(Str), 'cla
                'CIMClassName': {'host': Opt(Str), 'namespace': Opt(Str), 'classname': Str}}
 CONN = Obj('WBEMConnection', default_namespace=Str, conn_id=Opt(Str), debug=Bool)
 # what the server must see: the caller's class name, and the caller's namespace or else the connection default
-TARGET = ('localobject.host is None '
-          'and localobject.classname == (objectname if isinstance(objectname, str) else objectname.classname) '
-          'and localobject.namespace == (self.default_namespace if isinstance(objectname, str) '
-          'or objectname.namespace is None else objectname.namespace)')
+def target(o):
+    """what the server must see: the caller's class name, and the caller's namespace or else the connection default
+    (o = the callee's parameter that carries the path; caller_* = parameters of _methodcall)"""
+    return (f'{o}.host is None '
+            f'and {o}.classname == (caller_objectname if isinstance(caller_objectname, str) else caller_objectname.classname) '
+            f'and {o}.namespace == (caller_self.default_namespace if isinstance(caller_objectname, str) '
+            f'or caller_objectname.namespace is None else caller_objectname.namespace)')
+
+
 SAME = 'result.host == self.host and result.namespace == self.namespace and result.classname == self.classname'
 _t = dict(trusted=True)
 methodcall_target = Contract(
@@ -43,11 +48,11 @@ methodcall_target = Contract(
                                                ensures=[('attributes', 'self.host is host and self.namespace == namespace '
                                                          'and self.classname == classname')], **_t),
              'get_cimobject_header': Contract('pywbem/_cim_http.py::get_cimobject_header', returns=Str,
-                                              caller_requires=[TARGET], **_t),
+                                              requires=[target('obj')], **_t),
              'CIMInstanceName.tocimxml': Contract('pywbem/_cim_obj.py::CIMInstanceName.tocimxml', returns=Ref('Element'),
-                                                  caller_requires=[TARGET], **_t),
+                                                  requires=[target('self')], **_t),
              'CIMClassName.tocimxml': Contract('pywbem/_cim_obj.py::CIMClassName.tocimxml', returns=Ref('Element'),
-                                               caller_requires=[TARGET], **_t),
+                                               requires=[target('self')], **_t),
              'wbem_request': Contract('pywbem/_cim_http.py::wbem_request', never_returns=True,
                                       raises={'ConnectionError': Raises()}, **_t),
              'toxml': Contract('external::Element.toxml', sig=['self'], returns=Str, **_t)},
